@@ -218,11 +218,12 @@ def run(cx, rep):
     # ---------------------------------------------------------------- C02.5
     rep.rule("C02.5", "schemas of index signatures keep both the key and the value constraint")
     for cname, c in sorted(fam.classes.items()):
-        if "indexedPropertiesParser" not in fam.all_fields(cname) or "schema" not in c.methods:
+        ixf = ts_common.index_signature_field(fam, cname)
+        if ixf is None or "schema" not in c.methods:
             continue
         fn = c.methods["schema"]["function"]
         al = ts_common.local_aliases(fn)
-        IS = [k for k, v in al.items() if "indexedPropertiesParser.map(" in s(v).replace(" ", "")]
+        IS = [k for k, v in al.items() if ("this.%s.map(" % ixf) in s(v).replace(" ", "")]
         rep.ob("C02.5", "%s/index-schemas" % cname, len(IS) == 1, "%s.schema: could not find the per-index-signature schema list" % cname, mod.loc(fn))
         if len(IS) != 1:
             continue
